@@ -1245,6 +1245,7 @@ package jsonpath
 //@   parsetime
 //@   requires i != nil
 //@   ensures text: i.text == text
+//@   ensures only: forall b {F_syntaxBasicNode_text[b]} :: b != i ==> F_syntaxBasicNode_text[b] == old(F_syntaxBasicNode_text[b])
 //@ func (*syntaxBasicNode).setConnectedText
 //@   props C02 C15
 //@   parsetime
@@ -1611,10 +1612,12 @@ package jsonpath
 //@   requires nodeOK(targetNode) && 0 <= chainLen(targetNode) && chainWalk(targetNode)
 //@   decreases chainLen(targetNode)
 
+// C15: the text an error names is the text of the step as written - the node on top of the stack gets exactly the captured text
 //@ func (*jsonPathParser).setLastNodeText
-//@   props C02 C19
+//@   props C02 C19 C15
 //@   parsetime
 //@   requires p != nil
+//@   ensures text: len(p.params) == old(len(p.params)) && topParam(p) == old(topParam(p)) && basicOf(topParam(p)).text == text
 //@   requires len(p.params) >= 1 && wf(p.params) && nodeOK(elemAt(p.params, off(p.params) + len(p.params) - 1)) && (isType(elemAt(p.params, off(p.params) + len(p.params) - 1), *syntaxChildMultiIdentifier) && asType(elemAt(p.params, off(p.params) + len(p.params) - 1), *syntaxChildMultiIdentifier).isAllWildcard ==> asType(elemAt(p.params, off(p.params) + len(p.params) - 1), *syntaxChildMultiIdentifier).unionQualifier.syntaxBasicNode != nil)
 
 // setNodeChain relinks the chain (stale ranking tokens: body trusted), but what it does with an aggregate function's
@@ -1783,7 +1786,7 @@ package jsonpath
 //@   requires this != nil
 //@   pure
 //@ cases (*pegJSONPathParser).Execute
-//@   props C02 C09 C10 C11 C14 C16 C17 C18 C19
+//@   props C02 C09 C10 C11 C14 C15 C16 C17 C18 C19
 //@   parsetime
 //@   requires p != nil && p.jsonPathParser.unescapeRegex != nil && p.jsonPathParser.unescapeRegex == unescapeRegex
 //@   loop 2 invariant aggchain: checkNode != nil ==> PN(checkNode)
@@ -1807,6 +1810,9 @@ package jsonpath
 //@   case ruleAction5 ensures named: len(p.jsonPathParser.params) == old(len(p.jsonPathParser.params)) && (has(p.jsonPathParser.filterFunctions, asType(old(stk(p, 0)), string)) ==> isType(stk(p, 0), *syntaxFilterFunction) && asType(stk(p, 0), *syntaxFilterFunction).function == p.jsonPathParser.filterFunctions[asType(old(stk(p, 0)), string)])
 // C18: what a number or a string literal denotes is a function of its captured text alone (an index: atoiVal of the digits
 // with their sign; a number literal: numToF; a string literal of either quote style: dotUnesc)
+// C15: a dot step and a bracket step are named, in errors, by exactly the text captured for them
+//@   case ruleAction4 ensures steptext: basicOf(stk(p, 0)).text == text
+//@   case ruleAction7 ensures steptext: basicOf(stk(p, 0)).text == text
 //@   case ruleAction26 ensures twocur: len(p.jsonPathParser.params) == old(len(p.jsonPathParser.params)) && stk(p, 0) == old(stk(p, 0)) && !twoCur(stk(p, 0)) && (isType(stk(p, 0), *syntaxLogicalNot) ==> !twoCur(asType(stk(p, 0), *syntaxLogicalNot).query))
 //@   case ruleAction17 ensures index: isType(stk(p, 0), *syntaxIndexSubscript) && asType(stk(p, 0), *syntaxIndexSubscript).number == atoiVal(text) && !asType(stk(p, 0), *syntaxIndexSubscript).isOmitted
 //@   case ruleAction21 ensures index: isType(stk(p, 0), *syntaxIndexSubscript) && (len(text) > 0 ==> asType(stk(p, 0), *syntaxIndexSubscript).number == atoiVal(text) && !asType(stk(p, 0), *syntaxIndexSubscript).isOmitted) && (len(text) == 0 ==> asType(stk(p, 0), *syntaxIndexSubscript).isOmitted)
